@@ -17,6 +17,9 @@ func init() {
 }
 
 func runC11(c *Ctx) {
+	defer checkClientGetters(c, "C11.R9", clientGetter{"DefaultClient", "GetRedirectURIs", "RedirectURIs", ""}, clientGetter{"DefaultClient", "GetID", "ID", ""})
+	defer checkResponseModeHas(c, "C11.R8")
+	defer checkStoreKeyed(c, "C11.R7", storeRow{meth: "GetClient", table: "Clients", op: "get", key: 2})
 	defer checkConfigGetters(c, "C11.R6", "GetRedirectSecureChecker")
 	c11R1(c)
 	c11R2(c)
@@ -338,8 +341,20 @@ func c11R5(c *Ctx) {
 	const rule = "C11.R5"
 	// code-flow authorize: CreateAuthorizeCodeSession / code parameter only after the checker accepted the redirect URI
 	n := 0
-	for _, fn := range c.Calling(c.AuthorizeFns(), ".CreateAuthorizeCodeSession") {
-		if recvTypeName(fn) != pkgOAuth2+".AuthorizeExplicitGrantHandler" {
+	subjects := c.Calling(c.AuthorizeFns(), ".CreateAuthorizeCodeSession")
+	// ... and the pushed-authorization handler: nothing is stored before the checker accepted the URI
+	nPar := 0
+	for _, fn := range c.Impls(pkgRoot, "PushedAuthorizeEndpointHandler", "HandlePushedAuthorizeEndpointRequest") {
+		if c.P.RefsMethod(fn, 2, ".CreatePARSession") {
+			subjects = append(subjects, fn)
+			nPar++
+		}
+	}
+	if nPar == 0 {
+		c.RoleUnmatched(rule, "par-handler", "HandlePushedAuthorizeEndpointRequest implementation storing the pushed request")
+	}
+	for _, fn := range subjects {
+		if fn.Name() != "HandlePushedAuthorizeEndpointRequest" && recvTypeName(fn) != pkgOAuth2+".AuthorizeExplicitGrantHandler" {
 			continue
 		}
 		n++
@@ -351,7 +366,7 @@ func c11R5(c *Ctx) {
 		ok, m := true, 0
 		var w *Path
 		for _, p := range ex.Paths {
-			for _, e := range p.Calls(".CreateAuthorizeCodeSession", ".GenerateAuthorizeCode") {
+			for _, e := range p.Calls(".CreateAuthorizeCodeSession", ".GenerateAuthorizeCode", ".CreatePARSession") {
 				m++
 				sec := false
 				for _, f := range p.Facts[:min(e.NFacts, len(p.Facts))] {
@@ -367,7 +382,7 @@ func c11R5(c *Ctx) {
 				}
 			}
 		}
-		c.Check(ok && m > 0, rule, "authz-code", fn, "transport", "authorization codes are generated and stored only after the secure-transport checker accepted the redirect URI", "code issuance reachable without the checker", w)
+		c.Check(ok && m > 0, rule, "authz-code", fn, "transport", "authorization codes / pushed requests are generated and stored only after the secure-transport checker accepted the redirect URI", "issuance or storage reachable without the checker", w)
 	}
 	if n == 0 {
 		c.RoleUnmatched(rule, "authz-code", "code-flow authorize handler")
